@@ -7,9 +7,11 @@ COMPONENTS = {
                  'geometries, materials, pickups, solves, variables, '
                  'serialisers)', 'numpy / scipy as installed'],
         'stub': ['file system for save/load (in-memory SimFS bound to the '
-                 'fileio module namespace: open, os.path.exists / getsize / '
-                 'getmtime, os.stat, os.remove, with a simulated clock of one '
-                 'second per completed write; no disk faults injected)'],
+                 'fileio module namespace: open, os.open / fdopen / write / '
+                 'ftruncate / close / replace with real truncation semantics, '
+                 'os.path.exists / getsize / getmtime, os.stat, os.remove, '
+                 'with a simulated clock of one second per completed write; '
+                 'no disk faults injected)'],
     },
     'interleave': {
         'real': ['optiland.Optic, tracing, paraxial / aberration queries, '
